@@ -68,7 +68,10 @@ def borda_reference(rankings, univ, unify, bucket_id):
 
 def check(case, ctx):
     # generation dominates the cost: the drawn scheme, then each accepted family scaled by a factor taken from the case
-    check_one(case, ctx)
+    # ONE instance per variant and ONE Dataset object serve the whole batch (state kept between runs must not leak)
+    shared = {True: BordaCount(use_bucket_id=True), False: BordaCount(use_bucket_id=False),
+              "d": lib.mk_dataset(case["dataset"]["rankings"])}
+    check_one(case, ctx, shared)
     if case.get("batched", True):
         k = gen.DYADIC_FACTORS[len(case["perm"]) % len(gen.DYADIC_FACTORS)]
         for fam in ("unifying", "unifying_half", "induced", "induced_half", "pseudodistance"):
@@ -77,17 +80,17 @@ def check(case, ctx):
             c["family"] = "accepted" if fam != "pseudodistance" else "free"
             c["bucket_id"] = not case["bucket_id"] if fam in ("unifying_half", "induced") else case["bucket_id"]
             c["batched"] = False
-            check_one(c, ctx)
+            check_one(c, ctx, shared)
 
 
-def check_one(case, ctx):
+def check_one(case, ctx, shared=None):
     rankings, scheme = case["dataset"]["rankings"], case["scheme"]
-    d, s = lib.mk_dataset(rankings), lib.mk_scheme(scheme)
+    d, s = (shared["d"] if shared else lib.mk_dataset(rankings)), lib.mk_scheme(scheme)
     univ = oracle.universe(rankings)
     complete = gen.is_complete(rankings)
     uni = any(proportional(scheme, u) for u in UNI)
     ind = any(proportional(scheme, u) for u in IND)
-    alg = BordaCount(use_bucket_id=case["bucket_id"])
+    alg = shared[bool(case["bucket_id"])] if shared else BordaCount(use_bucket_id=case["bucket_id"])
     labels = gen.dataset_labels(case["dataset"]) + ["family:" + case["family"], "bucket_id:%s" % case["bucket_id"],
                                                      "uni" if uni else ("ind" if ind else "other")]
     try:
